@@ -42,6 +42,8 @@ def run(ctx):
     for v in res.tag("VERIF_CLASS"):
         v = v[0]
         k = "%s dups=%s" % (v["class"], "yes" if v["dups"] else "no")
+        if v["vec"].get("eager"):
+            k += " eager"
         if k not in classes or len(v["vec"]["script"]) < len(classes[k]["script"]):
             classes[k] = v["vec"]
     ctx.cov["asis_model_failure_classes"] = sorted(classes)
@@ -51,6 +53,15 @@ def run(ctx):
         # same, with time-based purging (WithMaxTimeDelay) in play: the tooOld path of purgeBuffers
         resd = vlib.tlc_model(ctx, "SampleBuilder", "SampleBuilder_RingDelay", workers=6)
         done += list(resd.tag("VERIF_DONE"))
+        # same, with a window that a single frame cannot overflow (maxLate 4): which failure classes remain
+        resw = vlib.tlc_model(ctx, "SampleBuilder", "SampleBuilder_RingWide", workers=8)
+        done += list(resw.tag("VERIF_DONE"))
+        for v in resw.tag("VERIF_CLASS"):
+            v = v[0]
+            k = "%s dups=%s" % (v["class"], "yes" if v["dups"] else "no")
+            if k not in classes or len(v["vec"]["script"]) < len(classes[k]["script"]):
+                classes[k] = v["vec"]
+        ctx.cov["asis_model_failure_classes"] = sorted(classes)
     conf = []
     for v in done:
         c = dict(v[0]["vec"])
